@@ -1,7 +1,7 @@
 (* C12 — property theorems (request media parsed at most once; error caching; handler glue;
    response render cache; the JSON codec round trip). *)
 From Coq Require Import ZArith NArith List Bool Arith Lia.
-From Falcon.C12 Require Import Model Spec Proofs Json JsonProofs ProofsUtf8 Form ProofsForm.
+From Falcon.C12 Require Import Model Spec Proofs Json JsonProofs ProofsUtf8 Form ProofsForm ProofsStream.
 Import ListNotations.
 
 (* Every call answers from the first handler invocation: later calls return the same object
@@ -269,3 +269,47 @@ Proof.
   - cbn. repeat constructor; cbn; intuition discriminate.
   - repeat constructor; cbn; try lia; try (intuition discriminate).
 Qed.
+
+(* ------------------------------------------------------------------ Content-Length and chunking *)
+
+(* What the stream hands the handler does not depend on how the transport chunks the body, and a
+   declared length matters only when it is smaller than the body: on ASGI a MISSING Content-Length
+   means "until the last event" (chunked / HTTP/2 uploads), on WSGI it means no body. *)
+Theorem C12_asgi_offered_any_chunking : forall cl chunks1 chunks2,
+  concat chunks1 = concat chunks2 -> offered_asgi cl chunks1 = offered_asgi cl chunks2.
+Proof. exact asgi_offered_any_chunking. Qed.
+Print Assumptions C12_asgi_offered_any_chunking.
+
+Theorem C12_json_roundtrip_any_chunking : forall d body cl chunks,
+  wf d -> json_serialize d = SBytes body -> concat chunks = body ->
+  (forall n, cl = Some n -> length body <= n) ->
+  json_deserialize_body (offered_asgi cl chunks) = DOk d.
+Proof. exact json_roundtrip_any_chunking. Qed.
+Print Assumptions C12_json_roundtrip_any_chunking.
+
+Theorem C12_json_roundtrip_wsgi : forall d body n,
+  wf d -> json_serialize d = SBytes body -> length body <= n ->
+  json_deserialize_body (offered_wsgi (Some n) body) = DOk d.
+Proof. exact json_roundtrip_wsgi. Qed.
+Print Assumptions C12_json_roundtrip_wsgi.
+
+Theorem C12_json_no_body_notfound : forall data chunks,
+  json_deserialize_body (offered_wsgi None data) = DNotFound /\
+  json_deserialize_body (offered_wsgi (Some 0) data) = DNotFound /\
+  json_deserialize_body (offered_asgi (Some 0) chunks) = DNotFound.
+Proof. exact json_no_body_notfound. Qed.
+Print Assumptions C12_json_no_body_notfound.
+
+(* [offered_*] is the declared body of C07's request-stream model *)
+Theorem C12_offered_wsgi_is_C07_declared : forall cl data,
+  offered_wsgi cl data =
+  Falcon.C07.Spec.w_declared (Z.of_nat (match cl with Some n => n | None => 0 end)) data.
+Proof. exact offered_wsgi_is_C07_declared. Qed.
+Print Assumptions C12_offered_wsgi_is_C07_declared.
+
+Theorem C12_offered_asgi_is_C07_declared : forall cl chunks,
+  (Falcon.C07.Model.len (concat chunks) <= Falcon.C07.Model.two63)%Z ->
+  offered_asgi cl chunks =
+  Falcon.C07.Spec.a_declared None (option_map Z.of_nat cl) (events_of chunks).
+Proof. exact offered_asgi_is_C07_declared. Qed.
+Print Assumptions C12_offered_asgi_is_C07_declared.
